@@ -15,6 +15,7 @@ import Driver.Cache
 import Driver.Apply
 import Driver.Purity
 import Driver.Schema
+import Driver.FsWrite
 open Lean
 
 def dispatch (j : Json) : Except String Json := do
@@ -30,6 +31,7 @@ def dispatch (j : Json) : Except String Json := do
   | "apply" => Driver.Apply.handle j
   | "purity" => Driver.Purity.handle j
   | "schema" => Driver.Schema.handle j
+  | "fswrite" => Driver.FsWrite.handle j
   | _ => throw s!"unknown stream {stream}"
 
 partial def loop (hin hout : IO.FS.Stream) : IO Unit := do
